@@ -67,7 +67,8 @@ func (r *Reporter) Disagree(key, desc string, replay any) {
 	r.mu.Lock()
 	defer r.mu.Unlock()
 	r.disagreed++
-	if r.disagreed > 200 {
+	if r.disagreed > 5000 {
+		r.Extra["disagreements_truncated"] = true
 		return
 	}
 	r.emit(map[string]any{"t": "disagree", "key": key, "desc": desc, "replay": replay})
